@@ -196,6 +196,31 @@ Theorem C18_disk_list_spec : forall fnm fl disk sub,
   filter_path fnm fl disk sub = negb (existsb (fun f => fnm false (f_pattern f) disk) fl).
 Proof. exact disk_list_spec. Qed.
 
+(* --- which parity files a selection leaves alone (state_filter; manual -d: "You can also specify parity disks") ---
+   without -d: any -f or -m excludes every parity file ("nothing outside the selection is written"), -e alone does not;
+   with -d: a parity file is kept iff a -d name matches its name.  The check compares this rule with the real
+   fix/check on damaged arrays (byte snapshots of every parity file before/after). *)
+Theorem C18_parity_excluded_no_disk_option : forall fnm fl_file missing error pname,
+  parity_excluded fnm fl_file [] missing error pname =
+  missing || (match fl_file with [] => false | _ :: _ => true end).
+Proof. exact parity_excluded_no_disk_option. Qed.
+Theorem C18_parity_excluded_by_missing : forall fnm fl_file error pname,
+  parity_excluded fnm fl_file [] true error pname = true.
+Proof. exact parity_excluded_by_missing. Qed.
+Theorem C18_parity_excluded_by_file_filter : forall fnm f fl_file missing error pname,
+  parity_excluded fnm (f :: fl_file) [] missing error pname = true.
+Proof. exact parity_excluded_by_file_filter. Qed.
+Theorem C18_parity_kept_without_selection : forall fnm error pname,
+  parity_excluded fnm [] [] false error pname = false.
+Proof. exact parity_kept_without_selection. Qed.
+Theorem C18_parity_excluded_disk_option : forall fnm fl_file fl_disk missing error pname,
+  Forall (fun f => f_is_disk f = true /\ f_include f = true) fl_disk -> fl_disk <> [] ->
+  parity_excluded fnm fl_file fl_disk missing error pname =
+  negb (existsb (fun f => fnm false (f_pattern f) pname) fl_disk).
+Proof. exact parity_excluded_disk_option. Qed.
+
+Print Assumptions C18_parity_excluded_no_disk_option.
+Print Assumptions C18_parity_excluded_disk_option.
 Print Assumptions C18_glob_spec.
 Print Assumptions C18_glob_star.
 Print Assumptions C18_glob_set.
